@@ -78,7 +78,10 @@ def lazy_job(args):
         if base in flat_names:
             leaf_results.setdefault(base, []).extend(r["status"] for r in n.results)
     starts = [(e[1], e[2], e[3], e[4]) for evs in run.events for e in evs if e[0] == "start"]
-    return {"restr": restr, "nets": nets, "seed": seed, "extra": given_extra, "pools": kind, "terminated": run.terminated, "sections": len(run.sections),
+    # a selected test without results only counts if some worker could have run it: decided by parsing it for each worker
+    # alone in a fresh graph (no other worker, nothing unrolled before)
+    compatible = {name: compatible_workers(name, [w.id for w in workers], vmr, params) for name in flat_names if not leaf_results.get(name)}
+    return {"compatible": compatible,"restr": restr, "nets": nets, "seed": seed, "extra": given_extra, "pools": kind, "terminated": run.terminated, "sections": len(run.sections),
             "fails": fails[:3], "monitor": [list(map(str, m)) for m in run.monitor[:6]], "flat": flat_names, "leaf_results": leaf_results,
             "doors": [list(map(str, e)) for evs in run.events for e in evs if e[0] == "door"][:10],
             "nstarts": len(starts), "dry": (extra or {}).get("dry_run") == "yes",
@@ -86,6 +89,30 @@ def lazy_job(args):
             "marked": any("f" == o.object_typed_params(n.params).get("unset_mode", "ri")[0] for n in g.nodes if not n.is_flat() for o in n.objects),
             "never": any(o is None for w, o in run.sections), "mode": mode,
             "overlap": overlap(run, x), "budget": budget(run, x)}
+
+
+def compatible_workers(name, worker_ids, vmr, params):
+    """the workers for which the flat test `name` can be composed, each tried alone in a fresh graph"""
+    from avocado_i2n.cartgraph import TestGraph
+    from harness import synth
+    out = []
+    for wid in worker_ids:
+        synth.reset_swarms()
+        p1 = dict(params, nets=wid)
+        g = TestGraph()
+        g.restrs.update(vmr)
+        flat = [n for n in TestGraph.parse_flat_nodes(name.replace(".", ".."), p1) if n.params["name"] == name]
+        for n in flat:
+            n.update_restrs(vmr)
+        g.new_nodes(flat)
+        ws = TestGraph.parse_workers(p1)
+        g.new_workers(ws)
+        try:
+            if any(g.parse_nodes_from_flat_node_and_object(n, ws[0].net, n.prefix, params=p1) for n in flat):
+                out.append(wid)
+        except Exception as e:
+            out.append(f"{wid}: {type(e).__name__}")
+    return out
 
 
 def overlap(run, x):
